@@ -85,11 +85,15 @@ fn hex(b: &[u8]) -> String {
 }
 
 fn unhex(s: &str) -> Option<Vec<u8>> {
-    if !s.contains(['*', '+']) {
+    if !s.contains(['*', '+', '~']) {
         return verif_harness::unhex(s);
     }
     let mut out = vec![];
     for seg in s.split('+') {
+        if let Some(g) = seg.strip_prefix('~') {
+            out.extend(gen_segment(g)?);
+            continue;
+        }
         match seg.split_once('*') {
             Some((u, n)) => {
                 let u = verif_harness::unhex(u)?;
@@ -106,6 +110,142 @@ fn unhex(s: &str) -> Option<Vec<u8>> {
         }
     }
     Some(out)
+}
+
+// ---------------------------------------------------------------- generated content, digests
+//
+// Chunks of tens of KiB .. 16 MiB of content that does NOT compress (or compresses like text)
+// cannot be written in hex on a line. Request side: a segment `~<k><seed>.<off>*<n>` denotes the
+// `n` bytes from offset `off` of the infinite stream `k`/`seed` (`n` = LCG noise, `w` = words
+// of a fixed 256-word dictionary separated by blanks, `m` = alternating stretches of both);
+// the streams are implemented twice (here and in Driver/C01.lean, `genStream`). Response side:
+// the `#`-ops (`build#`, `compress#`, `single#`) answer with `#<len>:<FNV-1a 64>` digests.
+
+fn lcg(x: u64) -> u64 {
+    x.wrapping_mul(6364136223846793005).wrapping_add(1442695040888963407)
+}
+
+fn gen_noise(seed: u64, n: usize, out: &mut Vec<u8>) {
+    let mut st = seed.wrapping_mul(0x9E37_79B9_7F4A_7C15).wrapping_add(1);
+    for _ in 0..n {
+        st = lcg(st);
+        out.push((st >> 33) as u8);
+    }
+}
+
+/// the fixed dictionary: word `i` has `2 + i % 9` letters drawn from one LCG stream
+fn dict() -> &'static Vec<Vec<u8>> {
+    static D: std::sync::OnceLock<Vec<Vec<u8>>> = std::sync::OnceLock::new();
+    D.get_or_init(|| {
+        let mut st = 0x5eedu64;
+        (0..256usize)
+            .map(|i| {
+                (0..2 + i % 9)
+                    .map(|_| {
+                        st = lcg(st);
+                        b'a' + ((st >> 33) % 26) as u8
+                    })
+                    .collect()
+            })
+            .collect()
+    })
+}
+
+/// at least `n` bytes of word text (whole words)
+fn gen_words(seed: u64, n: usize, out: &mut Vec<u8>) {
+    let mut st = seed.wrapping_mul(0x9E37_79B9_7F4A_7C15).wrapping_add(7);
+    let d = dict();
+    let end = out.len() + n;
+    while out.len() < end {
+        st = lcg(st);
+        out.extend_from_slice(&d[((st >> 33) % 256) as usize]);
+        out.push(b' ');
+    }
+}
+
+/// the first `n` bytes of stream `kind`/`seed`
+fn gen_stream(kind: char, seed: u64, n: usize) -> Option<Vec<u8>> {
+    let mut out = Vec::with_capacity(n + 16);
+    match kind {
+        'n' => gen_noise(seed, n, &mut out),
+        'w' => gen_words(seed, n, &mut out),
+        'm' => {
+            // stretches of 3000 noise bytes and 5000 bytes of words, in turn
+            let mut k = 0u64;
+            while out.len() < n {
+                let start = out.len();
+                if k % 2 == 0 {
+                    gen_noise(seed.wrapping_add(k), 3000, &mut out);
+                } else {
+                    gen_words(seed.wrapping_add(k), 5000, &mut out);
+                    out.truncate(start + 5000);
+                }
+                k += 1;
+            }
+        }
+        _ => return None,
+    }
+    out.truncate(n);
+    Some(out)
+}
+
+/// `<k><seed>.<off>*<n>` (the text after `~`)
+fn gen_segment(g: &str) -> Option<Vec<u8>> {
+    let kind = g.chars().next()?;
+    let (seed, rest) = g[1..].split_once('.')?;
+    let (off, n) = rest.split_once('*')?;
+    if ![seed, off, n].iter().all(|t| !t.is_empty() && t.bytes().all(|c| c.is_ascii_digit())) {
+        return None;
+    }
+    let (seed, off, n): (u64, usize, usize) = (seed.parse().ok()?, off.parse().ok()?, n.parse().ok()?);
+    if off + n > (1 << 28) {
+        return None;
+    }
+    let mut v = gen_stream(kind, seed, off + n)?;
+    v.drain(..off);
+    Some(v)
+}
+
+fn fnv1a(b: &[u8]) -> u64 {
+    let mut h = 0xcbf2_9ce4_8422_2325u64;
+    for x in b {
+        h ^= *x as u64;
+        h = h.wrapping_mul(0x0100_0000_01b3);
+    }
+    h
+}
+
+/// digest form of a byte string in the responses of the `#`-ops
+fn dig(b: &[u8]) -> String {
+    format!("#{}:{:016x}", b.len(), fnv1a(b))
+}
+
+/// a source of generated content: the notation of any of its slices is known
+#[derive(Clone)]
+struct Src {
+    kind: char,
+    seed: u64,
+    bytes: Vec<u8>,
+}
+
+impl Src {
+    fn new(kind: char, seed: u64, n: usize) -> Src {
+        Src { kind, seed, bytes: gen_stream(kind, seed, n).unwrap() }
+    }
+    /// all zero (written in the periodic notation `00*n`)
+    fn zeros(n: usize) -> Src {
+        Src { kind: 'z', seed: 0, bytes: vec![0; n] }
+    }
+    /// notation of `bytes[off..off + n]`
+    fn note(&self, off: usize, n: usize) -> String {
+        if n < 64 {
+            verif_harness::hex(&self.bytes[off..off + n])
+        } else if self.kind == 'z' {
+            format!("00*{n}")
+        } else {
+            format!("~{}{}.{}*{}", self.kind, self.seed, off, n)
+        }
+    }
 }
 
 #[allow(deprecated)]
@@ -137,6 +277,22 @@ fn err_class(e: &BlteError) -> &'static str {
 /// the real builder under test; `None` once a call consumed it (error, panic or `build`)
 struct Real {
     b: Option<BlteBuilder>,
+    /// after a `#`-op: the serialised container and the decode answer (digest form), for O
+    last: Option<(Vec<u8>, String)>,
+}
+
+/// the answer of a `#`-op for a serialised container: digest of the container, what
+/// parse + decompress_with_keys returns (digest), and the table as parsed
+fn digest_views(bytes: &[u8], ks: &TactKeyStore) -> (String, String) {
+    let (dec, rows) = match catch(AssertUnwindSafe(|| {
+        <BlteFile as CascFormat>::parse(bytes).map(|p| (p.decompress_with_keys(ks), rows_line(&p))).map_err(|_| ())
+    })) {
+        Ok(Ok((Ok(out), rows))) => (format!("ok {}", dig(&out)), rows),
+        Ok(Ok((Err(e), rows))) => (err_class(&e).to_string(), rows),
+        Ok(Err(())) => ("err:parse".into(), "err:parse".into()),
+        Err(_) => ("panic".into(), "panic".into()),
+    };
+    (format!("ok c={} | dec {} | {}", dig(bytes), dec, rows), dec)
 }
 
 fn spec_of(et: &str, name: &str, iv: &str, key: &str) -> Option<(EncryptionSpec, [u8; 16])> {
@@ -184,6 +340,11 @@ impl Real {
                 let n: usize = n.parse().ok()?;
                 self.step(|b| Ok(b.with_chunk_size_unchecked(n)))
             }
+            // the validated setter (documented limits 1 KiB ..= 16 MiB)
+            ["csv", n] => {
+                let n: usize = n.parse().ok()?;
+                self.step(|b| b.with_chunk_size(n))
+            }
             ["enc", et, name, iv, key] => {
                 let (spec, key) = spec_of(et, name, iv, key)?;
                 self.step(|b| Ok(b.with_encryption(spec, key)))
@@ -217,6 +378,22 @@ impl Real {
                 let Some(b) = self.b.take() else { return Some("dead".into()) };
                 match catch(AssertUnwindSafe(move || b.build().map(|f| CascFormat::build(&f).map_err(|e| e.to_string())))) {
                     Ok(Ok(Ok(bytes))) => format!("ok {}", hex(&bytes)),
+                    Ok(Ok(Err(_))) => "err:serialize".into(),
+                    Ok(Err(e)) => err_class(&e).into(),
+                    Err(_) => "panic".into(),
+                }
+            }
+            // build + serialise + parse + decode in one request, answered with digests (containers
+            // of incompressible content are too long for a line)
+            ["build#", keys, _tab] => {
+                let ks = keystore(keys)?;
+                let Some(b) = self.b.take() else { return Some("dead".into()) };
+                match catch(AssertUnwindSafe(move || b.build().map(|f| CascFormat::build(&f).map_err(|e| e.to_string())))) {
+                    Ok(Ok(Ok(bytes))) => {
+                        let (resp, dec) = digest_views(&bytes, &ks);
+                        self.last = Some((bytes, dec));
+                        resp
+                    }
                     Ok(Ok(Err(_))) => "err:serialize".into(),
                     Ok(Err(e)) => err_class(&e).into(),
                     Err(_) => "panic".into(),
@@ -321,6 +498,9 @@ fn flush_ratios(s: &mut Session) {
         }
     }
     for m in ['Z', '4'] {
+        if let Some(r) = g.get(&format!("maxgrow.{m}")) {
+            s.extra.insert(format!("max_compressor_expansion_bytes_mode_{m}"), serde_json::json!(r));
+        }
         if let Some(r) = g.get(&format!("max.{m}")) {
             let len = g.get(&format!("maxlen.{m}")).copied().unwrap_or(0);
             s.extra.insert(format!("max_compression_ratio_mode_{m}"), serde_json::json!({ "ratio_floor": r, "chunk_len": len }));
@@ -350,6 +530,8 @@ struct Prog {
     /// payloads usually still has a compact notation)
     kinds: &'static [Kind],
     fill: u8,
+    /// the case ends in a `#`-op: O compares digests (`#<len>:<fnv>`) instead of hex text
+    digest: bool,
 }
 
 fn split(cs: usize, d: &[u8]) -> Option<Vec<Vec<u8>>> {
@@ -384,6 +566,7 @@ impl Prog {
             big: false,
             kinds: &[Kind::Zero],
             fill: 0,
+            digest: false,
         }
     }
     /// graph of the real compressor on the given plain chunks for mode `m` (Z / 4 only)
@@ -402,6 +585,21 @@ impl Prog {
             }
         }
         tab_str(local.iter())
+    }
+    /// the same without the text (accounting of a replayed line: the graph is only needed for the
+    /// compressor law)
+    fn note_tab(&mut self, m: &str, plains: &[Vec<u8>]) {
+        let (mc, cm) = match m {
+            "Z" => ('Z', CompressionMode::ZLib),
+            "4" => ('4', CompressionMode::LZ4),
+            _ => return,
+        };
+        for p in plains {
+            if let Ok(c) = compress_chunk(p, cm) {
+                note_ratio(mc, p.len(), c.len());
+                self.tab.insert((mc, p.clone()), c);
+            }
+        }
     }
     fn payload(&self, rng: &mut Rng, max: usize) -> Vec<u8> {
         if self.big && self.cs >= 16 * 1024 && matches!(self.mode, "Z" | "4" | "F") {
@@ -486,6 +684,17 @@ impl Prog {
                 self.lines.push(format!("mode {}", self.mode));
             }
             8..=13 => {
+                if !self.big && rng.chance(1, 6) {
+                    // the validated setter at and around its documented limits (1 KiB ..= 16 MiB)
+                    let n = *rng.pick(&[0usize, 1023, 1024, 1024, 1025, 2048, 4096, 16 << 20, (16 << 20) + 1]);
+                    self.lines.push(format!("csv {n}"));
+                    if (1024..=16usize << 20).contains(&n) {
+                        self.cs = n;
+                    } else {
+                        self.expect_err = true;
+                    }
+                    return;
+                }
                 self.cs = if self.big && rng.chance(4, 5) {
                     *rng.pick(&[16usize << 10, 16 << 10, 32 << 10, 64 << 10, 1 << 20, usize::MAX])
                 } else {
@@ -813,6 +1022,293 @@ fn compressible_family(s: &mut Session, rng: &mut Rng, thorough: bool, pool: &[(
     }
 }
 
+// ---------------------------------------------------------------- large chunks of content that does not shrink
+
+/// how the chunk size of a big-family program is set
+#[derive(Clone, Copy, PartialEq)]
+enum CsOp {
+    Default,
+    Unchecked(usize),
+    /// the validated `with_chunk_size` (documented limits 1 KiB ..= 16 MiB)
+    Checked(usize),
+}
+
+/// one case of the large-chunk family, as request lines: a builder program ending in `build#`, or
+/// one `compress#` / `single#` line. `kmode`: the lines carry the graph of the real compressor
+/// (the Lean model evaluates them); otherwise the case is one oracle-only `big` line.
+#[allow(clippy::too_many_arguments)]
+fn big_lines(rng: &mut Rng, pool: &[(u64, [u8; 16])], kmode: bool, src: &Src, off: usize, n: usize, mode: &'static str, et: Option<u8>, route: &str, cs: CsOp, lead: bool) -> Vec<String> {
+    let cm = match mode {
+        "Z" => Some(('Z', CompressionMode::ZLib)),
+        "4" => Some(('4', CompressionMode::LZ4)),
+        _ => None,
+    };
+    // graph of the real compressor on pieces of the source (K lines only)
+    let tab = |pieces: &[(usize, usize)]| -> String {
+        let Some((mc, cm)) = cm else { return "-".into() };
+        if !kmode {
+            return "-".into();
+        }
+        let mut v: Vec<String> = vec![];
+        for &(o, l) in pieces {
+            if let Ok(c) = compress_chunk(&src.bytes[o..o + l], cm) {
+                v.push(format!("{mc}:{}:{}", src.note(o, l), hex(&c)));
+            }
+        }
+        v.sort();
+        v.dedup();
+        if v.is_empty() { "-".into() } else { v.join(",") }
+    };
+    let pieces_of = |cs: usize| -> Vec<(usize, usize)> {
+        if n <= cs || cs == 0 { vec![(off, n)] } else { (0..n).step_by(cs).map(|o| (off + o, cs.min(n - o))).collect() }
+    };
+    let d = src.note(off, n);
+    let csn = match cs {
+        CsOp::Default => 256 * 1024,
+        CsOp::Unchecked(c) | CsOp::Checked(c) => c,
+    };
+    match route {
+        "compress" => return vec![format!("compress# {csn} {mode} {d} {}", tab(&pieces_of(csn)))],
+        "single" => return vec![format!("single# {mode} {d} {}", tab(&[(off, n)]))],
+        _ => {}
+    }
+    let mut lines = vec!["begin".to_string()];
+    match cs {
+        CsOp::Default => {}
+        CsOp::Unchecked(c) => lines.push(format!("cs {c}")),
+        CsOp::Checked(c) => lines.push(format!("csv {c}")),
+    }
+    lines.push(format!("mode {mode}"));
+    let mut keys = BTreeMap::new();
+    let mut mk = |rng: &mut Rng, et: u8| {
+        let (name, key) = *rng.pick(pool);
+        keys.insert(name, key);
+        Enc { et, name, iv: rng.bytes(4).try_into().unwrap(), key }
+    };
+    let e = et.map(|et| mk(rng, et));
+    if let (Some(e), "add") = (&e, route) {
+        lines.push(format!("enc {}", e.toks()));
+    }
+    let mut pos = 0usize;
+    if lead {
+        // a small plain-or-encrypted chunk in front: the large one sits at block index 1, under a table
+        let k = rng.range(1, 5) as usize;
+        let l = rng.bytes(k);
+        let t = match cm {
+            Some((mc, cm)) if kmode => compress_chunk(&l, cm).map(|c| format!("{mc}:{}:{}", hex(&l), hex(&c))).unwrap_or_else(|_| "-".into()),
+            _ => "-".into(),
+        };
+        lines.push(format!("add {} {t}", hex(&l)));
+        pos = 1;
+    }
+    match (route, &e) {
+        ("add", _) => lines.push(format!("add {d} {}", tab(&pieces_of(csn)))),
+        ("mixed", None) => lines.push(format!("mixed {d} none {}", tab(&pieces_of(csn)))),
+        ("mixed", Some(e)) => lines.push(format!("mixed {d} {} {}", e.toks(), tab(&pieces_of(csn)))),
+        ("encdata", Some(e)) => lines.push(format!("encdata {d} {} {pos} {}", e.toks(), tab(&[(off, n)]))),
+        _ => lines.push(format!("chunk {mode} {d} {}", tab(&[(off, n)]))),
+    }
+    let ks: Vec<String> = keys.iter().map(|(n, k)| format!("{n}:{}", hex(k))).collect();
+    lines.push(format!("build# {} -", if ks.is_empty() { "-".into() } else { ks.join(",") }));
+    lines
+}
+
+fn run_big(s: &mut Session, lines: Vec<String>, kmode: bool) {
+    if kmode {
+        replay(s, &lines, true, false);
+    } else {
+        replay(s, &[format!("big {}", lines.join("|"))], true, false);
+    }
+}
+
+/// The class "one chunk (or a few) of content the compressors cannot shrink much, at and around
+/// every size at which the encode / decode paths change gear": the decoder's 8 KiB read buffer,
+/// flate2's 32 KiB input buffer and deflate's 32 KiB window, stored-block / LZ4 64 KiB limits,
+/// miniz's 85196-byte output buffer, the builder's 256 KiB default chunk size, 1 MiB — each with
+/// its -1 / +1 neighbours — and, in `limit_family`, the builder's documented 16 MiB maximum.
+/// Content: LCG noise (incompressible: deflate emits stored blocks, LZ4 literals only), text of
+/// dictionary words (deflate flushes several dynamic blocks from a few hundred KiB on), a mix of
+/// both. Every compression mode (N, Z, 4; E with Salsa20 / ARC4 over each of them as inner mode;
+/// F is refused by every encoder call, see the sweeps) and every way of making a chunk.
+/// Request lines carry the payloads in generator notation; cases are oracle-only (`big` lines)
+/// except a rotating subset of those up to 64 KiB + 1 and two of 256 KiB which the Lean model
+/// evaluates as well.
+fn big_family(s: &mut Session, rng: &mut Rng, thorough: bool, pool: &[(u64, [u8; 16])]) {
+    const K: usize = 1024;
+    let combos: [(&'static str, Option<u8>); 9] =
+        [("N", None), ("Z", None), ("4", None), ("N", Some(0x53)), ("Z", Some(0x53)), ("4", Some(0x53)), ("N", Some(0x41)), ("Z", Some(0x41)), ("4", Some(0x41))];
+    let plain_routes = ["add", "csv-add", "mixed", "chunk", "compress", "single"];
+    let enc_routes = ["add", "csv-add", "mixed", "encdata"];
+    let mut turn = rng.below(64) as usize;
+    let mut kcount = 0usize;
+    for kind in ['n', 'w', 'm'] {
+        let src = Src::new(kind, rng.below(100_000), 1024 * K + 1 + 4096);
+        for (ci, &(mode, et)) in combos.iter().enumerate() {
+            // (an odd stride: every size meets every route over the contents x modes)
+            turn += 1 + (turn + ci) % 2;
+            let mut sizes: Vec<usize> = vec![];
+            for t in [8 * K, 32 * K, 64 * K, 256 * K] {
+                sizes.extend([t - 1, t, t + 1]);
+            }
+            sizes.extend([16 * K, 85196, 128 * K]);
+            if thorough {
+                sizes.extend([1024 * K - 1, 1024 * K, 1024 * K + 1, 85195, 85197, 16 * K + 1, 128 * K + 1, 512 * K]);
+            } else {
+                // quick tier: one of the three 1 MiB neighbours per content x mode, in turn
+                sizes.push(1024 * K - 1 + (turn + ci) % 3);
+            }
+            // two sizes nobody chose: log-uniform in 4 KiB .. 1 MiB
+            for _ in 0..2 {
+                let bits = rng.range(12, 19);
+                sizes.push(((1u64 << bits) + rng.below(1u64 << bits)) as usize);
+            }
+            for n in sizes {
+                turn += 1;
+                let off = rng.below(4096) as usize;
+                let routes: &[&str] = if et.is_some() { &enc_routes } else { &plain_routes };
+                let route0 = routes[turn % routes.len()];
+                let (route, cs) = match route0 {
+                    "csv-add" => ("add", CsOp::Checked(n.max(1024))),
+                    "add" | "mixed" | "compress" => (
+                        route0,
+                        match rng.below(4) {
+                            0 => CsOp::Unchecked(n),
+                            1 => CsOp::Unchecked(n + 1),
+                            2 => CsOp::Unchecked(usize::MAX >> 1),
+                            _ if n <= 256 * K && route0 != "compress" => CsOp::Default,
+                            _ => CsOp::Unchecked(2 * n),
+                        },
+                    ),
+                    r => (r, CsOp::Default),
+                };
+                let lead = !matches!(route, "compress" | "single") && rng.chance(1, 2);
+                // the Lean model evaluates a rotating subset of the cases up to 64 KiB + 1
+                let kmode = n <= 64 * K + 1 && turn % if thorough { 2 } else { 6 } == 0;
+                kcount += kmode as usize;
+                let class = match n {
+                    0..=8193 => "<=8KiB+1",
+                    8194..=32769 => "<=32KiB+1",
+                    32770..=65537 => "<=64KiB+1",
+                    65538..=262145 => "<=256KiB+1",
+                    _ => "<=1MiB+1",
+                };
+                s.tally(&format!("big.len.{class}"));
+                s.tally(&format!("big.content.{}", match kind { 'n' => "noise", 'w' => "words", _ => "mixed" }));
+                s.tally(&format!("big.mode.{}{mode}", match et { Some(0x53) => "E(salsa20)/", Some(_) => "E(arc4)/", None => "" }));
+                s.tally(&format!("big.route.{route0}"));
+                s.tally(if kmode { "big.K+O" } else { "big.oracle-only" });
+                let lines = big_lines(rng, pool, kmode, &src, off, n, mode, et, route, cs, lead);
+                run_big(s, lines, kmode);
+                if HUNG.load(std::sync::atomic::Ordering::SeqCst) {
+                    return;
+                }
+            }
+        }
+        // several large chunks of such content: 3 x 64 KiB + 5 at 64 KiB, 200000 at a validated
+        // 64 KiB, 2 x 32 KiB at 32 KiB — through add_data / add_mixed_data / compress
+        for (n, cs) in [(3 * 64 * K + 5, CsOp::Unchecked(64 * K)), (200_000, CsOp::Checked(64 * K)), (64 * K, CsOp::Unchecked(32 * K))] {
+            for &(mode, et) in &combos {
+                turn += 1;
+                if !thorough && (turn % 3 != 0) {
+                    continue;
+                }
+                let route = if et.is_some() { ["add", "mixed"][turn % 2] } else { ["add", "mixed", "compress"][turn % 3] };
+                let kmode = n == 64 * K && turn % 2 == 0;
+                kcount += kmode as usize;
+                s.tally("big.split-into-several-chunks");
+                s.tally(if kmode { "big.K+O" } else { "big.oracle-only" });
+                let off = rng.below(4096) as usize;
+                let lead = rng.chance(1, 3);
+                let lines = big_lines(rng, pool, kmode, &src, off, n, mode, et, route, cs, lead);
+                run_big(s, lines, kmode);
+            }
+        }
+        // 256 KiB chunks the model evaluates too: mode N plain and under Salsa20 / ARC4 (MD5 and
+        // the ciphers over the whole chunk on the Lean side); noise only in the quick tier
+        if kind == 'n' || thorough {
+            for et in [None, Some(0x53u8), Some(0x41)] {
+                if !thorough && et == Some(0x41) {
+                    continue;
+                }
+                kcount += 1;
+                s.tally("big.len.<=256KiB+1");
+                s.tally("big.K+O");
+                let n = 256 * K + rng.below(2) as usize;
+                let lines = big_lines(rng, pool, true, &src, 0, n, "N", et, "add", CsOp::Unchecked(n), true);
+                run_big(s, lines, true);
+            }
+        }
+    }
+    s.extra.insert("big_family_cases_evaluated_by_the_model_too".into(), serde_json::json!(kcount));
+}
+
+/// The builder's documented limits: `with_chunk_size` accepts 1 KiB ..= 16 MiB of CONTENT per
+/// chunk, `add_encrypted_data` / `add_chunk` take one piece "regardless of size". Whatever build +
+/// serialise accepts, parse + decode must return: a stored chunk is content + 1 mode byte, + 16
+/// more when encrypted (+ expansion when the content does not compress). Oracle-only (16 MiB per
+/// chunk is out of reach of the line protocol); the out-of-range setter calls are ordinary lines.
+fn limit_family(s: &mut Session, rng: &mut Rng, thorough: bool, pool: &[(u64, [u8; 16])]) {
+    const M: usize = 16 * 1024 * 1024;
+    // the setter at its documented limits (K: the model's withChunkSizeChecked)
+    for n in [0usize, 1, 1023, 1024, 1025, M - 1, M, M + 1, 2 * M, usize::MAX >> 1] {
+        let d = rng.bytes(if n == 1024 { 1025 } else { 3 });
+        let lines: Vec<String> = vec!["begin".into(), format!("csv {n}"), format!("add {} -", hex(&d)), "build# - -".into()];
+        s.tally("limit.with_chunk_size");
+        replay(s, &lines, true, false);
+    }
+    let src = Src::new('n', rng.below(100_000), M + 64);
+    let wsrc = Src::new('w', rng.below(100_000), M + 64);
+    let run = |s: &mut Session, rng: &mut Rng, src: &Src, n: usize, mode: &'static str, et: Option<u8>, route: &str, cs: CsOp, lead: bool, what: &str| {
+        s.tally(&format!("limit.{what}"));
+        s.tally("big.oracle-only");
+        let off = rng.below(32) as usize;
+        let lines = big_lines(rng, pool, false, src, off, n, mode, et, route, cs, lead);
+        let t = std::time::Instant::now();
+        run_big(s, lines, false);
+        if std::env::var_os("C01_TIMES").is_some() {
+            eprintln!("c01: limit.{what}: {:.2} s", t.elapsed().as_secs_f64());
+        }
+    };
+    // mode N, plain: stored chunk = content + 1
+    run(s, rng, &src, M, "N", None, "add", CsOp::Checked(M), false, "N.cs=MAX.one-chunk-no-table");
+    run(s, rng, &src, M, "N", None, "add", CsOp::Checked(M), true, "N.cs=MAX.piece=MAX.table");
+    run(s, rng, &src, M + 1, "N", None, "add", CsOp::Checked(M), false, "N.cs=MAX.piece=MAX+1.splits");
+    run(s, rng, &src, M - 1, "N", None, "add", CsOp::Checked(M - 1), true, "N.cs=MAX-1.piece=MAX-1.table");
+    run(s, rng, &src, M, "N", None, "mixed", CsOp::Checked(M), true, "N.mixed.piece=MAX");
+    run(s, rng, &src, M, "N", None, "chunk", CsOp::Default, true, "N.add_chunk.piece=MAX");
+    run(s, rng, &src, M + 1, "N", None, "chunk", CsOp::Default, true, "N.add_chunk.piece=MAX+1");
+    run(s, rng, &src, M + 1, "N", None, "compress", CsOp::Unchecked(M), false, "N.compress.cs=MAX.piece=MAX+1");
+    run(s, rng, &src, M, "N", None, "single", CsOp::Default, false, "N.single_chunk.piece=MAX");
+    // encrypted (inner mode N): stored chunk = content + 17
+    let deltas: &[usize] = if thorough { &[17, 16, 15, 14, 13, 12, 11, 10, 9, 8, 7, 6, 5, 4, 3, 2, 1, 0] } else { &[17, 16, 15, 1, 0] };
+    for (i, &dl) in deltas.iter().enumerate() {
+        let et = if thorough || i % 2 == 0 { 0x53 } else { 0x41 };
+        run(s, rng, &src, M - dl, "N", Some(et), "add", CsOp::Checked(M - dl), false, "E/N.cs=MAX-17..MAX.one-full-chunk");
+        if thorough {
+            run(s, rng, &src, M - dl, "N", Some(0x41), "add", CsOp::Checked(M - dl), false, "E/N.cs=MAX-17..MAX.one-full-chunk");
+        }
+    }
+    run(s, rng, &src, M, "N", Some(0x41), "mixed", CsOp::Checked(M), true, "E/N.mixed.piece=MAX");
+    run(s, rng, &src, M, "N", Some(0x53), "encdata", CsOp::Default, false, "E/N.add_encrypted_data.piece=MAX");
+    run(s, rng, &src, M + 1, "N", Some(0x41), "encdata", CsOp::Default, true, "E/N.add_encrypted_data.piece=MAX+1");
+    // content that does not shrink in the compressing modes: stored chunk = content + 1 + expansion
+    run(s, rng, &src, M, "Z", None, "add", CsOp::Checked(M), true, "Z.noise.cs=MAX.piece=MAX");
+    run(s, rng, &src, M, "4", None, "add", CsOp::Checked(M), true, "4.noise.cs=MAX.piece=MAX");
+    run(s, rng, &wsrc, M, "Z", Some(0x53), "add", CsOp::Checked(M), false, "E/Z.words.cs=MAX.piece=MAX");
+    // single pieces above the maximum in the compressing modes (add_chunk / add_encrypted_data
+    // take them "regardless of size"): the decoder must hand back more than MAX_CHUNK_SIZE bytes
+    // from one chunk
+    let zsrc = Src::zeros(M + 64);
+    run(s, rng, &zsrc, M + 1, "Z", None, "chunk", CsOp::Default, true, "Z.zeros.add_chunk.piece=MAX+1");
+    run(s, rng, &zsrc, M + 1, "4", Some(0x53), "encdata", CsOp::Default, false, "E/4.zeros.add_encrypted_data.piece=MAX+1");
+    run(s, rng, &wsrc, M + 1, "Z", Some(0x41), "encdata", CsOp::Default, true, "E/Z.words.add_encrypted_data.piece=MAX+1");
+    if thorough {
+        run(s, rng, &wsrc, M, "Z", None, "add", CsOp::Checked(M), true, "Z.words.cs=MAX.piece=MAX");
+        run(s, rng, &src, M, "4", Some(0x41), "mixed", CsOp::Checked(M), true, "E/4.noise.cs=MAX.piece=MAX");
+        run(s, rng, &src, M, "Z", Some(0x53), "encdata", CsOp::Default, true, "E/Z.noise.add_encrypted_data.piece=MAX");
+    }
+}
+
 // ---------------------------------------------------------------- encoder entry points outside the builder
 
 /// set when a call of the real code did not return within its watchdog time
@@ -1013,7 +1509,7 @@ fn entry_case(s: &mut Session, line: &str, views: bool, verbose: bool) {
             raw_points.dedup();
             tab = if tab == "-" { raw_points.join(",") } else { format!("{},{}", raw_points.join(","), tab) };
         }
-        let mut real = Real { b: None };
+        let mut real = Real { b: None, last: None };
         let l = format!("dec {} - {}", h, tab);
         dec = real.run(&l.split(' ').collect::<Vec<_>>()).unwrap();
         let l2 = format!("decplain {} {}", h, tab);
@@ -1071,6 +1567,86 @@ fn entry_case(s: &mut Session, line: &str, views: bool, verbose: bool) {
     param_law(s, &p, &replay);
 }
 
+/// `compress# <cs> <m> <d> <tab>` / `single# <m> <d> <tab>`: the entry points outside the builder
+/// on payloads in generator notation, answered with digests (see `digest_views`). `emit` = the
+/// request is a line of its own (K); otherwise it is part of an oracle-only `big` line.
+fn entry_case_digest(s: &mut Session, line: &str, emit: bool, verbose: bool) {
+    let toks: Vec<&str> = line.split(' ').collect();
+    let parsed: Option<(usize, CompressionMode, &str, Vec<u8>)> = match toks.as_slice() {
+        ["compress#", cs, m, d, _tab] => (|| Some((cs.parse().ok()?, mode_of(m)?, static_mode(m)?, unhex(d)?)))(),
+        ["single#", m, d, _tab] => (|| Some((usize::MAX, mode_of(m)?, static_mode(m)?, unhex(d)?)))(),
+        _ => None,
+    };
+    let Some((cs, cm, m, d)) = parsed else {
+        if emit {
+            s.line(line, "bad-op");
+        }
+        return;
+    };
+    let single = toks[0] == "single#";
+    let d2 = d.clone();
+    let (tx, rx) = std::sync::mpsc::channel();
+    std::thread::spawn(move || {
+        let r = catch(AssertUnwindSafe(move || {
+            let f = if single { BlteFile::single_chunk(d2, cm) } else { BlteFile::compress(&d2, cs, cm) };
+            f.map(|f| CascFormat::build(&f).map_err(|_| ()))
+        }));
+        let _ = tx.send(r);
+    });
+    let mut built: Option<(Vec<u8>, String)> = None;
+    let r = match rx.recv_timeout(std::time::Duration::from_millis(if cs == 0 { 400 } else { 120_000 })) {
+        Ok(Ok(Ok(Ok(bytes)))) => {
+            let (resp, dec) = digest_views(&bytes, &TactKeyStore::empty());
+            built = Some((bytes, dec));
+            resp
+        }
+        Ok(Ok(Ok(Err(())))) => "err:serialize".into(),
+        Ok(Ok(Err(e))) => err_class(&e).to_string(),
+        Ok(Err(_)) => "panic".into(),
+        Err(_) => {
+            HUNG.store(true, std::sync::atomic::Ordering::SeqCst);
+            "hang".into()
+        }
+    };
+    if emit {
+        s.line(line, &r);
+    }
+    s.tally(&format!("op.{}", toks[0]));
+    if verbose {
+        println!("impl  {} -> {}", trunc(line), trunc(&r));
+    }
+    let replay = vec![if emit { line.to_string() } else { format!("big {line}") }];
+    if r == "hang" {
+        s.oracle_fail("encoder-does-not-return", &format!("{} did not return within the watchdog time", trunc(line)), &replay);
+        s.case(None);
+        return;
+    }
+    let mut p = Prog::new();
+    p.lines = replay.clone();
+    p.digest = true;
+    let ch = if single { Some(vec![d.clone()]) } else { split(cs, &d) };
+    p.note_tab(m, ch.as_deref().unwrap_or(&[]));
+    p.shape.push(if single { "single" } else { "compress" });
+    p.account(&d, ch, None, m != "E" && m != "F");
+    let call = if r.starts_with("ok ") { "ok".to_string() } else { r.clone() };
+    let dec = built.as_ref().map(|b| b.1.clone()).unwrap_or_default();
+    oracle(s, &p, &[call], built.as_ref().map(|b| &b.0[..]), &dec);
+    if let Some((bytes, _)) = &built {
+        let table = bytes.get(4..8) != Some(&[0, 0, 0, 0]);
+        if single && table {
+            s.oracle_fail("single-chunk-with-table", "single_chunk wrote a chunk table", &replay);
+        }
+        if !single && table != (p.plain_chunks.len() > 1) {
+            s.oracle_fail("compress-table-layout", &format!("compress wrote table = {table} for {} chunks", p.plain_chunks.len()), &replay);
+        }
+        s.tally(&format!("entry.{}.ok", p.shape[0]));
+    } else {
+        s.tally(&format!("entry.{}.err", p.shape[0]));
+    }
+    s.case(if built.is_some() { Some(line) } else { None });
+    param_law(s, &p, &replay);
+}
+
 /// after a call that never returned the runaway thread keeps allocating: write what we have and leave
 fn exit_if_hung(s: Session) -> Session {
     if HUNG.load(std::sync::atomic::Ordering::SeqCst) {
@@ -1082,7 +1658,7 @@ fn exit_if_hung(s: Session) -> Session {
 
 /// a decode request on a hand-made container that must be refused by both sides
 fn must_reject(s: &mut Session, bytes: &[u8], keys: &str, sig: &str, what: &str) {
-    let mut real = Real { b: None };
+    let mut real = Real { b: None, last: None };
     let h = hex(bytes);
     let mut lines = vec![];
     for l in [format!("dec {h} {keys} -"), format!("decplain {h} -")] {
@@ -1316,11 +1892,12 @@ fn oracle(s: &mut Session, p: &Prog, step_resps: &[String], built: Option<&[u8]>
     }
     let Some(bytes) = built else { return };
     // 1. identity
-    let want = format!("ok {}", hex(&p.added));
+    let added = if p.digest { dig(&p.added) } else { hex(&p.added) };
+    let want = format!("ok {added}");
     if dec != want {
         let kind = if dec.starts_with("ok") { "decodes-to-other-bytes" } else { "decode-fails" };
         let shape = if p.foreign_index { "-salsa-foreign-block-index" } else { "" };
-        let mut msg = format!("decode(parse(serialize(build p))) = {}, added bytes = {}; calls {:?}", trunc(dec), trunc(&hex(&p.added)), p.shape);
+        let mut msg = format!("decode(parse(serialize(build p))) = {}, added bytes = {}; calls {:?}", trunc(dec), trunc(&added), p.shape);
         if p.foreign_index {
             msg.push_str(" (add_encrypted_data was given a Salsa20 block index other than the chunk's position)");
         }
@@ -1360,13 +1937,14 @@ fn oracle(s: &mut Session, p: &Prog, step_resps: &[String], built: Option<&[u8]>
                 s.oracle_fail(&format!("table-checksum{tag}"), &format!("row {i}: checksum {} but MD5(chunk) = {}", hex(&row.checksum), hex(&sum)), replay);
             }
             // decoded size of this chunk, decoded on its own at its own index
-            let plain = if encrypted { decrypt_chunk_with_keys(&ch.data, &ks, i).ok() } else { decompress_chunk(&ch.data, ch.mode).ok() };
             // the content the chunk describes: the harness's own account of the chunking where it
             // has one, else the chunk decoded on its own at its own index
-            let actual = match (p.plain_chunks.get(i), &plain) {
-                (Some((pl, _)), _) if !p.expect_err => Some(pl.len()),
-                (_, Some(pl)) => Some(pl.len()),
-                _ => None,
+            let actual = match p.plain_chunks.get(i) {
+                Some((pl, _)) if !p.expect_err => Some(pl.len()),
+                _ => {
+                    let plain = if encrypted { decrypt_chunk_with_keys(&ch.data, &ks, i).ok() } else { decompress_chunk(&ch.data, ch.mode).ok() };
+                    plain.map(|pl| pl.len())
+                }
             };
             if let Some(n) = actual
                 && row.decompressed_size as usize != n
@@ -1390,7 +1968,7 @@ fn oracle(s: &mut Session, p: &Prog, step_resps: &[String], built: Option<&[u8]>
 /// its `build` line
 fn replay_of(p: &Prog) -> Vec<String> {
     let mut v = p.lines.clone();
-    if v.first().is_some_and(|l| l == "begin") {
+    if !p.digest && v.first().is_some_and(|l| l == "begin") {
         v.push("build".into());
     }
     v
@@ -1402,6 +1980,21 @@ fn replay_of(p: &Prog) -> Vec<String> {
 fn param_law(s: &mut Session, p: &Prog, replay: &[String]) {
     for ((m, plain), comp) in &p.tab {
         let cm = if *m == 'Z' { CompressionMode::ZLib } else { CompressionMode::LZ4 };
+        // the expansion bound the documented-limits theorems are instantiated with
+        // (Props/C01 `documented_limits_fit_table`, `Bounded`): content that does not shrink
+        // grows by a few bytes per block, never by more than len/255 + 64
+        if comp.len() > plain.len() + plain.len() / 255 + 64 {
+            s.oracle_fail(
+                "param-bound-compress-expansion",
+                &format!("compress_chunk returned {} bytes for {} bytes of content in mode {m} (bound len + len/255 + 64)", comp.len(), plain.len()),
+                replay,
+            );
+        }
+        if comp.len() > plain.len() {
+            let mut g = RATIOS.lock().unwrap();
+            let e = g.entry(format!("maxgrow.{m}")).or_insert(0);
+            *e = (*e).max((comp.len() - plain.len()) as u64);
+        }
         let got = decompress_chunk(comp, cm);
         if got.as_ref().ok().map(|v| &v[..]) != Some(&plain[..]) {
             let got = match &got {
@@ -1455,7 +2048,7 @@ fn trunc(s: &str) -> String {
 
 /// run one generated program on the real code, emit lines, evaluate O
 fn run_prog(s: &mut Session, p: &Prog) {
-    let mut real = Real { b: None };
+    let mut real = Real { b: None, last: None };
     let mut resps = vec![];
     for l in &p.lines {
         let toks: Vec<&str> = l.split(' ').collect();
@@ -1522,23 +2115,48 @@ fn run_prog(s: &mut Session, p: &Prog) {
 
 /// replay of request lines from a case file: lines are fed as they are; the oracle is evaluated
 /// from what the lines themselves say (payloads, keys, indices), at every `build` line.
-fn replay(s: &mut Session, lines: &[String]) {
-    let mut real = Real { b: None };
+fn replay(s: &mut Session, lines: &[String], emit: bool, verbose: bool) {
+    let mut real = Real { b: None, last: None };
     let mut p = Prog::new();
     p.lines.clear();
     let mut resps: Vec<String> = vec![];
     for l in lines {
         let toks: Vec<&str> = l.split(' ').collect();
         if matches!(toks[0], "compress" | "single" | "multi") {
-            entry_case(s, l, false, true);
+            entry_case(s, l, false, verbose);
+            if HUNG.load(std::sync::atomic::Ordering::SeqCst) {
+                return;
+            }
+            continue;
+        }
+        if matches!(toks[0], "compress#" | "single#") {
+            entry_case_digest(s, l, emit, verbose);
+            if HUNG.load(std::sync::atomic::Ordering::SeqCst) {
+                return;
+            }
+            continue;
+        }
+        if toks[0] == "big" {
+            // an oracle-only case: the request lines of the case joined by `|`, run on the real
+            // code only (the model side answers the same fixed token)
+            let sub: Vec<String> = l[3..].trim_start().split('|').map(|x| x.to_string()).collect();
+            replay(s, &sub, false, verbose);
+            if emit {
+                s.line(l, "oracle-only");
+            }
+            s.tally("op.big(oracle-only)");
             if HUNG.load(std::sync::atomic::Ordering::SeqCst) {
                 return;
             }
             continue;
         }
         let r = real.run(&toks).unwrap_or_else(|| "bad-op".into());
-        s.line(l, &r);
-        println!("impl  {} -> {}", trunc(l), trunc(&r));
+        if emit {
+            s.line(l, &r);
+        }
+        if verbose {
+            println!("impl  {} -> {}", trunc(l), trunc(&r));
+        }
         if toks[0] == "begin" {
             p = Prog::new();
             p.lines.clear();
@@ -1558,6 +2176,15 @@ fn replay(s: &mut Session, lines: &[String]) {
         match toks.as_slice() {
             ["mode", m] => p.mode = ["N", "Z", "4", "E", "F"].into_iter().find(|x| x == m).unwrap_or("N"),
             ["cs", n] => p.cs = n.parse().unwrap_or(0),
+            ["csv", n] => {
+                // the documented limits of with_chunk_size: 1 KB ..= 16 MB (the harness's own account)
+                let n: usize = n.parse().unwrap_or(0);
+                if (1024..=16 * 1024 * 1024).contains(&n) {
+                    p.cs = n;
+                } else {
+                    p.expect_err = true;
+                }
+            }
             ["enc", et, name, iv, key] => {
                 if let Some(e) = enc_of(&[et, name, iv, key]) {
                     note_enc(&mut p, &e);
@@ -1570,14 +2197,14 @@ fn replay(s: &mut Session, lines: &[String]) {
                 let e = p.enc.clone();
                 let ok = if e.is_some() { p.mode != "F" } else { plain_ok(p.mode) };
                 let ch = split(p.cs, &d);
-                p.table_for(p.mode, ch.as_deref().unwrap_or(&[]));
-                p.shape.push("add");
+                p.note_tab(p.mode, ch.as_deref().unwrap_or(&[]));
+                p.shape.push(if e.is_some() { "add+enc" } else { "add" });
                 p.account(&d, ch, e.as_ref(), ok);
             }
             ["mixed", d, "none", _] => {
                 let d = unhex(d).unwrap_or_default();
                 let ch = split(p.cs, &d);
-                p.table_for(p.mode, ch.as_deref().unwrap_or(&[]));
+                p.note_tab(p.mode, ch.as_deref().unwrap_or(&[]));
                 p.shape.push("mixed");
                 let ok = plain_ok(p.mode);
                 p.account(&d, ch, None, ok);
@@ -1587,7 +2214,7 @@ fn replay(s: &mut Session, lines: &[String]) {
                 if let Some(e) = enc_of(&[et, name, iv, key]) {
                     note_enc(&mut p, &e);
                     let ch = split(p.cs, &d);
-                    p.table_for(p.mode, ch.as_deref().unwrap_or(&[]));
+                    p.note_tab(p.mode, ch.as_deref().unwrap_or(&[]));
                     p.shape.push("mixed+enc");
                     let ok = p.mode != "F";
                     p.account(&d, ch, Some(&e), ok);
@@ -1602,7 +2229,7 @@ fn replay(s: &mut Session, lines: &[String]) {
                     if e.et == 0x53 && (idx as u32) != (here as u32) && p.mode != "F" {
                         p.foreign_index = true;
                     }
-                    p.table_for(p.mode, std::slice::from_ref(&d));
+                    p.note_tab(p.mode, std::slice::from_ref(&d));
                     p.shape.push("encdata");
                     let ok = p.mode != "F";
                     p.account(&d, Some(vec![d.clone()]), Some(&e), ok);
@@ -1610,7 +2237,7 @@ fn replay(s: &mut Session, lines: &[String]) {
             }
             ["chunk", m, d, _] => {
                 let d = unhex(d).unwrap_or_default();
-                p.table_for(m, std::slice::from_ref(&d));
+                p.note_tab(m, std::slice::from_ref(&d));
                 p.shape.push("chunk");
                 p.account(&d, Some(vec![d.clone()]), None, plain_ok(m));
             }
@@ -1629,6 +2256,28 @@ fn replay(s: &mut Session, lines: &[String]) {
                 }
             }
             "begin" | "rows" => {}
+            "build#" => {
+                s.case(Some(&p.lines.join("|")));
+                let mut q = Prog::new();
+                std::mem::swap(&mut q, &mut p);
+                q.digest = true;
+                // the replay of the case: its own lines (one `big` line when oracle-only)
+                let rep = if emit { q.lines.clone() } else { vec![format!("big {}", q.lines.join("|"))] };
+                let built = real.last.take();
+                if built.is_none() && !resps.iter().any(|r| r != "ok") && !q.plain_chunks.is_empty() {
+                    s.oracle_fail("build-fails", &format!("build returned {r}"), &rep);
+                }
+                let dec = built.as_ref().map(|b| b.1.clone()).unwrap_or_default();
+                q.lines = rep.clone();
+                oracle(s, &q, &resps, built.as_ref().map(|b| &b.0[..]), &dec);
+                param_law(s, &q, &rep);
+                if built.is_some() {
+                    s.tally(&format!("chunks.{}", match q.plain_chunks.len() { 0 => "0", 1 => "1", 2..=4 => "2-4", 5..=16 => "5-16", _ => ">16" }));
+                    s.tally("build.ok");
+                } else {
+                    s.tally("build.err");
+                }
+            }
             "build" => {
                 s.case(Some(&p.lines.join("|")));
                 if let Some(h) = r.strip_prefix("ok ") {
@@ -1636,7 +2285,9 @@ fn replay(s: &mut Session, lines: &[String]) {
                     let tab = tab_str(p.tab.iter());
                     let dl = format!("dec {} {} {}", h, p.keys_str(), tab);
                     let dec = real.run(&dl.split(' ').collect::<Vec<_>>()).unwrap();
-                    println!("impl  (oracle) decode with matching keys -> {}", trunc(&dec));
+                    if verbose {
+                        println!("impl  (oracle) decode with matching keys -> {}", trunc(&dec));
+                    }
                     let mut q = Prog::new();
                     std::mem::swap(&mut q, &mut p);
                     q.lines.pop();
@@ -1664,12 +2315,12 @@ fn main() {
     let args = Args::parse();
     quiet_panics();
     let mut s = Session::new(&args.out);
-    s.rule = "seeded builder programs of 1..8 calls over {with_compression N/Z/4/E/F, with_chunk_size_unchecked 0/1/2/3/5/16/64/1024/default, with_encryption / without_encryption, add_data, add_mixed_data(None|Some), add_encrypted_data(index = position | foreign), add_chunk(ChunkData::new)} with Salsa20 / ARC4 / unknown cipher types, payload lengths 0, 1, cs-1, cs, cs+1, 2cs, 2cs+1, 3cs+r, random, first byte forced to N/Z/4/E/F in a third of them, constant / periodic / random content; plus an exhaustive sweep of one- and two-call programs over {add_data, add_mixed_data, add_encrypted_data, add_chunk}^2 x payload lengths {0,1,cs-1,cs,cs+1,2cs,2cs+1} x modes x {plain, Salsa20, ARC4}; plus the entry points outside the builder: BlteFile::compress exhaustively over chunk sizes {0,1,2,4,5,64} x lengths {0,1,cs-1,cs,cs+1,2cs,2cs+1,3cs+2} x modes N/Z/4/E/F and seeded random (chunk sizes 0..4096), single_chunk over modes x lengths, multi_chunk / multi_chunk_extended over vectors of 0..6 ChunkData::new chunks (random modes incl. E/F) and over hand-made from_compressed chunks (K only), nested containers as content; plus the family of highly compressible payloads in large single chunks: one chunk of 16 KiB / 32 KiB / 64 KiB / 256 KiB / 1 MiB (thorough: 12 sizes up to 4 MiB incl. 32 KiB +-1) of all-zero / constant / period 2..8 / mode-byte-then-constant / sparse content x modes Z and 4 x routes {add_data plain, add_data under Salsa20, add_data under ARC4, one of add_mixed_data / add_encrypted_data / add_chunk plain or encrypted, BlteFile::compress, BlteFile::single_chunk} (every content kind on every route up to 64 KiB, kinds in turn above; above 256 KiB every other route per mode in the quick tier), chunk size = payload / payload+1 / 2x / default / usize::MAX, half of the builder programs with a small chunk in front, plus 1 MiB at the default chunk size, 3x64 KiB+5 at 64 KiB and 2x32 KiB at 32 KiB (several such chunks, plain / Salsa20 / ARC4), plus one random program in 30 as a large-chunk program (chunk sizes 16 KiB .. 1 MiB / usize::MAX, payload lengths cs-1, cs, cs+1, 2cs+1, cs/2..cs, constant / periodic / sparse content, modes Z / 4, encryption in half of them); the compression ratios reached are tallied (compress_chunk.ratio.*, compress_chunk.max-ratio.*, extra.max_compression_ratio_mode_*); hand-made containers with a Frame chunk (single-chunk and at every table position, both table formats) and encrypted chunks whose inner payload starts with F / E; non-trivial = every call succeeded, a container with >= 1 chunk was produced and decoded (or, for the hand-made Frame / nested containers, parsed and handed to both decoders); distinct = canonical text of the whole program / request".into();
+    s.rule = "seeded builder programs of 1..8 calls over {with_compression N/Z/4/E/F, with_chunk_size_unchecked 0/1/2/3/5/16/64/1024/default, with_encryption / without_encryption, add_data, add_mixed_data(None|Some), add_encrypted_data(index = position | foreign), add_chunk(ChunkData::new)} with Salsa20 / ARC4 / unknown cipher types, payload lengths 0, 1, cs-1, cs, cs+1, 2cs, 2cs+1, 3cs+r, random, first byte forced to N/Z/4/E/F in a third of them, constant / periodic / random content; plus an exhaustive sweep of one- and two-call programs over {add_data, add_mixed_data, add_encrypted_data, add_chunk}^2 x payload lengths {0,1,cs-1,cs,cs+1,2cs,2cs+1} x modes x {plain, Salsa20, ARC4}; plus the entry points outside the builder: BlteFile::compress exhaustively over chunk sizes {0,1,2,4,5,64} x lengths {0,1,cs-1,cs,cs+1,2cs,2cs+1,3cs+2} x modes N/Z/4/E/F and seeded random (chunk sizes 0..4096), single_chunk over modes x lengths, multi_chunk / multi_chunk_extended over vectors of 0..6 ChunkData::new chunks (random modes incl. E/F) and over hand-made from_compressed chunks (K only), nested containers as content; plus the family of highly compressible payloads in large single chunks: one chunk of 16 KiB / 32 KiB / 64 KiB / 256 KiB / 1 MiB (thorough: 12 sizes up to 4 MiB incl. 32 KiB +-1) of all-zero / constant / period 2..8 / mode-byte-then-constant / sparse content x modes Z and 4 x routes {add_data plain, add_data under Salsa20, add_data under ARC4, one of add_mixed_data / add_encrypted_data / add_chunk plain or encrypted, BlteFile::compress, BlteFile::single_chunk} (every content kind on every route up to 64 KiB, kinds in turn above; above 256 KiB every other route per mode in the quick tier), chunk size = payload / payload+1 / 2x / default / usize::MAX, half of the builder programs with a small chunk in front, plus 1 MiB at the default chunk size, 3x64 KiB+5 at 64 KiB and 2x32 KiB at 32 KiB (several such chunks, plain / Salsa20 / ARC4), plus one random program in 30 as a large-chunk program (chunk sizes 16 KiB .. 1 MiB / usize::MAX, payload lengths cs-1, cs, cs+1, 2cs+1, cs/2..cs, constant / periodic / sparse content, modes Z / 4, encryption in half of them); plus the family of large chunks of content that does NOT shrink (big.*): one chunk of LCG noise / dictionary-word text / alternating stretches of both at 8 KiB, 32 KiB, 64 KiB, 256 KiB each with -1 / +1, 16 KiB, 85196, 128 KiB, one of 1 MiB -1/0/+1 per content x mode (thorough: all three, and more) and two log-uniform sizes in 4 KiB .. 1 MiB, x modes N / Z / 4 plain and as inner mode under Salsa20 and under ARC4 x routes in rotation {add_data, add_data after the validated with_chunk_size(n), add_mixed_data, add_chunk, BlteFile::compress, BlteFile::single_chunk | add_data under with_encryption, add_mixed_data(Some), add_encrypted_data}, chunk size = payload / payload+1 / 2x / default / huge, half with a small chunk in front, plus payloads split into several such chunks (3x64 KiB+5, 200000 at a validated 64 KiB, 2x32 KiB); payloads are written in generator notation (~<kind><seed>.<off>*<len>) and answered with #len:fnv digests (ops build#, compress#, single#); a rotating sixth of the cases up to 64 KiB+1 and two 256 KiB chunks are evaluated by the Lean model as well, the rest are oracle-only `big` lines (both sides answer `oracle-only`); plus the builder's documented limits (limit.*): with_chunk_size at 0, 1, 1023, 1024, 1025, 16 MiB-1, 16 MiB, 16 MiB+1, 32 MiB, 2^62 (K+O), and oracle-only 16 MiB chunks: chunk size exactly 16 MiB / 16 MiB-1 with one piece of 16 MiB / 16 MiB+1 through add_data (alone, behind a small chunk, split), add_mixed_data, add_chunk (16 MiB and 16 MiB+1), compress, single_chunk in mode N; encrypted full chunks at chunk sizes 16 MiB-17, -16, -15, -1, -0 (thorough: every one of -17..0, both ciphers), add_mixed_data(Some) and add_encrypted_data with 16 MiB and 16 MiB+1; 16 MiB of noise in modes Z and 4 and of words under Salsa20/Z, single pieces of 16 MiB+1 of zeros / words through add_chunk (Z) and add_encrypted_data (Salsa20/4, ARC4/Z); one random program in six that sets a chunk size uses the validated setter at 0 / 1023 / 1024 / 1025 / 2048 / 4096 / 16 MiB / 16 MiB+1; the compression ratios reached are tallied (compress_chunk.ratio.*, compress_chunk.max-ratio.*, extra.max_compression_ratio_mode_*); hand-made containers with a Frame chunk (single-chunk and at every table position, both table formats) and encrypted chunks whose inner payload starts with F / E; non-trivial = every call succeeded, a container with >= 1 chunk was produced and decoded (or, for the hand-made Frame / nested containers, parsed and handed to both decoders); distinct = canonical text of the whole program / request".into();
     let mut rng = Rng::new(args.seed);
 
     if let Some(p) = &args.replay {
         let lines = read_case(p);
-        replay(&mut s, &lines);
+        replay(&mut s, &lines, true, true);
         let s = exit_if_hung(s);
         s.finish();
         return;
@@ -1770,6 +2421,16 @@ fn main() {
     // random programs so that a failure there is reported on its plainest witness)
     compressible_family(&mut s, &mut rng, args.thorough(), &pool);
     let mut s = exit_if_hung(s);
+
+    // large chunks of content that does not shrink, around every buffer threshold of the encode /
+    // decode paths, and the builder's documented 16 MiB limit (mostly oracle-only `big` lines)
+    let t0 = std::time::Instant::now();
+    big_family(&mut s, &mut rng, args.thorough(), &pool);
+    let mut s = exit_if_hung(s);
+    let t1 = std::time::Instant::now();
+    limit_family(&mut s, &mut rng, args.thorough(), &pool);
+    let mut s = exit_if_hung(s);
+    eprintln!("c01: big_family {:.1} s, limit_family {:.1} s", (t1 - t0).as_secs_f64(), t1.elapsed().as_secs_f64());
 
     // seeded random programs
     let n_prog = if args.thorough() { 20000 } else { 1500 };
